@@ -95,3 +95,46 @@ Proof.
     + rewrite pending_snoc. cbn [pending1]. now rewrite Z.eqb_refl.
     + rewrite pendset_snoc. cbn [pendset1]. now rewrite Z.eqb_refl.
 Qed.
+
+(** * The [accepted] form of ACK soundness *)
+
+Definition invAcc (tr : list (op * res)) (h : handler) : Prop :=
+  invA tr h /\
+  forall sp x q, hist_of h sp = Some x -> inR q (ranges x) -> accepted tr sp q.
+
+Lemma invAcc_step : forall tr h o, invAcc tr h -> invAcc (tr ++ [(o, snd (step h o))]) (fst (step h o)).
+Proof.
+  intros tr h o (HA & HS). split; [now apply invA_step |].
+  assert (Hoks : forall sp x, hist_of h sp = Some x -> hist_ok x) by (intros sp x Hx; now apply (HA sp x)).
+  intros sp y q Hy Hq.
+  destruct (step_hist h o sp y Hy) as (x & Hx & Htr).
+  pose proof (Hoks sp x Hx) as Hok.
+  destruct Htr as [| pn ecn lvl t ae Ho Hsp | p Ho Hsp].
+  - apply accepted_app_l. eauto.
+  - subst o. destruct (res_eq_ROk_dec (snd (step h (Recv pn ecn lvl t ae)))) as [Er | Er].
+    + destruct (hist_recv_mem x pn q Hok Hq) as [Hq' | [Hq' _]].
+      * apply accepted_app_l. eauto.
+      * subst q. exists ecn, lvl, t, ae. split; [apply in_or_app; right; left; now rewrite Er | assumption].
+    + rewrite (step_recv_notok h pn ecn lvl t ae Hoks Er sp) in Hy. rewrite Hx in Hy.
+      assert (Hyx : fst (hist_recv x pn) = x) by congruence. rewrite Hyx in Hq.
+      apply accepted_app_l. eauto.
+  - apply accepted_app_l. apply (HS sp x q Hx). now apply (hist_delete_below_mem x p q Hok).
+Qed.
+
+Lemma invAcc_run : forall ops, invAcc (trace newHandler ops) (fst (run newHandler ops)).
+Proof.
+  intros ops. apply (run_preserves invAcc invAcc_step ops [] newHandler).
+  split; [apply invA_init |]. intros sp x q Hx Hq. apply newHandler_hist in Hx. subst x. now apply inR_nil in Hq.
+Qed.
+
+(** every number in a generated ACK frame was ACCEPTED ([ReceivedPacket] returned nil) in that space *)
+Lemma ack_sound_accepted : forall ops lvl now only f,
+  let h := fst (run newHandler ops) in
+  snd (h_get_ack h lvl now only) = Some f ->
+  exists sp, sp_of lvl = Some sp /\ forall q, inR q (aRanges f) -> accepted (trace newHandler ops) sp q.
+Proof.
+  intros ops lvl now only f h Hf.
+  destruct (h_get_ack_frame h lvl now only f Hf) as (sp & x & Hsp & Hx & Hr & _).
+  exists sp. split; [assumption |]. intros q Hq. rewrite Hr in Hq. unfold backward in Hq. rewrite inR_rev in Hq.
+  destruct (invAcc_run ops) as (_ & HS). now apply (HS sp x q).
+Qed.
